@@ -4026,7 +4026,11 @@ def fix_raise_missing_from(source: str) -> str:
     except {{exception}} as error:
         raise {{something}} from error
     """
-    yield from processing.find_replace(source, find, replace)
+    root = core.parse(source)
+    if any(core.walk(root, (ast.Name(id="error"), ast.arg(arg="error")))):
+        return  # The except clause would rebind and then delete a name that is in use
+
+    yield from processing.find_replace(source, find, replace, root=root)
 
 
 @processing.fix
